@@ -250,9 +250,9 @@ def observe(cmd, args):
             if tail[1:2] != ["none"] or any(x != "abi3" for x in tail[2:]): return "cpython_tags: after the ABIs: abi3, none, then only older abi3"
             if len(v) < 2 or v[:2] < (3, 2): return "abi3 offered below 3.2 / for a major-only version"
             if len(tail) - 2 != max(v[1] - 2, 0): return "cpython_tags: older minors are not exactly minor-1 .. 2"
-            if rest and re.match(r"cp[0-9]+[^\n]*t", rest[0]): return "abi3 offered for a free-threaded ABI"
+            if rest and re.match(r"cp\d+[^\n]*t", rest[0]): return "abi3 offered for a free-threaded ABI"
         else:
             if tail != ["none"]: return "cpython_tags: without abi3 the sequence must end with the none block"
-            if len(v) > 1 and v[:2] >= (3, 2) and not (rest and re.match(r"cp[0-9]+[^\n]*t", rest[0])): return "abi3 missing for a non-free-threaded 3.2+ version"
+            if len(v) > 1 and v[:2] >= (3, 2) and not (rest and re.match(r"cp\d+[^\n]*t", rest[0])): return "abi3 missing for a non-free-threaded 3.2+ version"
         return "ok"
     raise KeyError(cmd)
